@@ -193,9 +193,10 @@ TEXTS['C11'] = {
     'text': "Lean theorems: stream-upload buffers <= max_in_memory_upload_chunks + max_submission_concurrency (stage permits "
             "plus one per submission thread), for every tag the sliding window spans at most max_in_memory_download_chunks "
             "tokens (from the C12 capacity equation), pending writes <= max_io_queue_size and each chunk <= io_chunksize. "
-            "The explorer observes buffers through OSUtils and the window through the GET log. Partial: buffer *sizes* hold "
-            "for the effective part size only: D14 (adjusted 5 MiB parts above the configured values) and D16 (a short first "
-            "read of an unknown-size stream buffers the whole stream) are recorded findings.",
+            "A stream sent as one PutObject is shorter than multipart_threshold and every part buffer of a stream upload has exactly "
+            "the part size except the last, whatever the stream's short-read pattern (after the D16 repair). The explorer observes "
+            "buffers through OSUtils and the window through the GET log. Partial: buffer sizes hold for the effective part size: D14 "
+            "(the adjusted part size is at least 5 MiB even when threshold and chunksize are configured lower) is a recorded finding.",
     'note': COMMON_NOTE + M2_NOTE + "Memory as the allocator sees it is not observable.",
     'technique': "Lean 4 proof (corollaries of the permit and sliding-window invariants) + trace validation + explorer oracle",
 }
